@@ -422,6 +422,22 @@ def run(ck, F):
         bi, bb = _bare(idx), _bare(base)
         for g in guards:
             for c in _conjuncts(g):
+                if c.get('k') == 'binop' and c.get('op') == '!=' and getattr(g, 'get', None) and g.get('_for') is not None:
+                    # `for (i = 0; i != N; ++i)`: i runs over [0, N) when it starts at a constant not above N and only the loop's own
+                    # increment changes it
+                    fr_ = g['_for']
+                    iv = [v for d_ in walk(fr_.get('init')) if d_.get('k') == 'decl' for v in d_.get('vars', [])]
+                    side = 'l' if _bare(c.get('l')) == bi else ('r' if _bare(c.get('r')) == bi else None)
+                    i0 = _strip(idx)
+                    if side and len(iv) == 1 and i0.get('k') == 'ref' and i0.get('id') == iv[0].get('id') and i0.get('name') == iv[0].get('name'):
+                        start = _strip(iv[0].get('init')).get('cv', (iv[0].get('init') or {}).get('cv'))
+                        inc = _strip(fr_.get('inc'))
+                        steps = inc.get('k') == 'unop' and '++' in inc.get('op', '') and _bare(inc.get('e')) == bi
+                        others = [n_ for n_ in walk(fr_.get('b')) if (n_.get('k') == 'binop' and n_.get('op', '').endswith('=') and n_.get('op') not in ('==', '!=', '<=', '>=')
+                                                                      and _bare(n_.get('l')) == bi)
+                                  or (n_.get('k') == 'unop' and ('++' in n_.get('op', '') or '--' in n_.get('op', '')) and _bare(n_.get('e')) == bi)]
+                        if start is not None and 0 <= int(start) and steps and not others:
+                            c = dict(c, op='<') if side == 'l' else dict(c, op='>')
                 if c.get('k') != 'binop' or c.get('op') not in ('<', '<=', '>', '>='):
                     continue
                 lo, hi, strict = (c.get('l'), c.get('r'), c['op'] == '<') if c['op'] in ('<', '<=') else (c.get('r'), c.get('l'), c['op'] == '>')
@@ -451,7 +467,7 @@ def run(ck, F):
         k = n.get('k')
         for key, v in n.items():
             if key in ('then', 'b') and k in ('if', 'for', 'while') and n.get('c') is not None and (key == 'then' or k != 'if'):
-                yield from _sites(v, guards + [n['c']])
+                yield from _sites(v, guards + [dict(n['c'], _for=n) if k == 'for' and isinstance(n['c'], dict) else n['c']])
             elif key == 'r' and k == 'binop' and n.get('op') in ('&&', 'and'):
                 yield from _sites(v, guards + [n.get('l')])
             elif key == 'then' and k == 'cond' or (key in ('a', 'then') and k in ('condop', 'conditional')):
